@@ -58,4 +58,26 @@ _c('C17', 'container-protocol coherence fixpoint over the class hierarchy, index
    'Decides: length/indexing/deletion/iteration of a filtering list class use one view (R17.a); parse-time and edit-time canonicalisation both handle all/duplicates, absent deletion rejected, empty list = all (R17.b); media query keyword predicates normalised, hand-back flag present, ten media types (R17.c); hand-back channel reset (R17.d). Does not decide canonicalisation over histories.',
    '')
 
+_c('C03', 'reader/writer table agreement on exact character sets from the regex syntax trees; producer/consumer kind tables',
+   'Decides: every character the STRING token refuses raw is escaped by helper.string and every emitted escape is readable (R03.a); every character url(...) refuses unquoted triggers quoting (R03.b); every token kind that can carry non-ASCII text is decoded by the tokenizer, STRING/URI are re-escaped, the decode-only set does not grow (R03.c); every serializer entry point used by the DOM exists (R03.d); namespaced item types agree (R03.e). Does not decide equivalence of the reparsed DOM or byte-identical second serialisation.',
+   'Three known findings (backslash in strings, ATKEYWORD not decoded, identifier escapes not re-encoded).')
+_c('C06', 'set comparison of four extracted preference vocabularies; control-dependence lint for layout preferences; shared guards of the number formatter and hash shortening',
+   'Decides: documented = defaults, minified ⊆ defaults, reads ⊆ defaults, no dead preference (R06.a); branches on pure layout preferences cannot drop or select content (R06.b); namespace filter sees every namespaced item type (R06.c); leading-zero omission only for |v| < 1 under the preference, integers never through %f (R06.d); hash shortening lossless, decided by evaluation (R06.e). Does not decide reparse equivalence under the 2^24 combinations.',
+   '')
+_c('C07', 'complete evaluation of loop-free decision procedures over the finite quotient their own comparisons induce (abstract interpretation with an exact domain), CFG rules for buffering',
+   'Decides detectencoding_str on its whole input space (11 byte classes, lengths 0-4, final, @charset tails incl. name lengths around every integer constant: ~32k abstract inputs) against a CSS 2.1 section 4.4 oracle (R07.a); detectencoding_unicode/_fixencoding over all prefix relations (R07.b); buffer-until-decided and "undecided always buffers" on the CFG of the incremental/stream classes (R07.c); str/bytes kind of buffers and flushes (R07.d). Does not decide the round trip over all encodings.',
+   'The evaluator interprets the syntax tree itself (closed node set, AnalysisError otherwise); codec.chars is replaced by an equivalent after a shape check. The library is never imported.')
+_c('C08', 'complete evaluation of _readUrl over its finite input quotient; dataflow on the hand-over call; who-encodes-how lint; shape rules on the encoding mirror',
+   'Decides the precedence ladder for all 128 source combinations (R08.a); the override/new-encoding hand-over to imported sheets and their storage before parsing (R08.b); every encode in the serializer uses the registered escapecss handler, which resumes at e.end with one escape per character (R08.c); the encoding attribute only goes through rule 0 (R08.d). Does not decide decodability for all characters.',
+   '')
+_c('C18', 'evaluation of _hash on its syntax tree; unit-set inclusion; table consistency; control-dependence guards of the number formatter; shared string/url tables',
+   'Decides: hash shortening exactly #aabbcc -> #abc under the preference (R18.a); unit dropped only for zero lengths (R18.b); colour table internally consistent and CSS 2.1 colours correct (R18.c); leading-zero stripping guarded by |v|<1, integers via int() (R18.d); string / url content tables (R18.e/f). Declines number formatting arithmetic, colour-space conversion (e.g. hue wrapping) - runtime values.',
+   'Known finding shared with C03 (backslash in strings).')
+_c('C19', 'store-shape lint, kind-set inclusion between two modules, enumeration agreement, fall-back pairing',
+   'Decides: every store in replaceUrls is X.a = replacer(X.a) (R19.a); combinable kinds ⊆ kinds @media accepts (R19.b); getUrls and replaceUrls share one enumeration that visits own style and nested rules and all properties (R19.c); Replacer keeps absolute URLs and takes the base from the path component (R19.d); the three fall-backs keep the @import rule (R19.e). Declines path arithmetic, cascade order and fetch counts.',
+   'Several obligations are shape matches on small functions.')
+_c('C20', 'complete evaluation of getEncodingInfo / _getTextTypeByMediaType / encodingByMediaType on their syntax trees over the finite table of source combinations; CFG pairing for the stream position',
+   'Decides the precedence chain, the mismatch flag and which sniffers are consulted for all 304 rows (7 media classes x transport x XML x meta) (R20.a); media-type classification of 20 representatives incl. +xml subtypes and default table (R20.b); lower-casing of every source (R20.c); BOM before declaration before default, stream position restored on every return, str and bytes wrapped (R20.d). Does not decide the sniffers on arbitrary documents.',
+   'Extractor functions are replaced by scenario values inside the evaluator; re.match on the two media-type patterns is executed on the representative strings.')
+
 NOT_APPLICABLE = {}
